@@ -11,6 +11,7 @@
   signednesses of `char`.
 -/
 import W2c2Verif.Lemmas.FilesRun
+import W2c2Verif.Lemmas.FilesTotal
 
 namespace W2c2Verif.Props.C20
 open W2c2Verif W2c2Verif.Model.Files W2c2Verif.Gen.Files W2c2Verif.Lemmas.Files
@@ -148,6 +149,13 @@ theorem inputs_readonly (o : Opts) (w : World) (plan : BitVec 32 → List (BitVe
 theorem write_modes_truncate : ∀ m ∈ [headerMode, outputMode, implMode, dataSegmentsMode], m = "w" ∨ m = "wb" := by
   decide
 
+/-- the theorems above are not vacuous: a run has a defined outcome whenever the output path leaves room
+    for the header suffix in the PATH_MAX buffers (for ALL directory contents, listings, options, partitions);
+    longer paths overflow `outputDir`/`outputName`/`headerName` (modelled as `.ub`; memory safety is C10) -/
+theorem run_defined (o : Opts) (w : World) (plan : BitVec 32 → List (BitVec 32) × List (BitVec 32)) (fs : FS)
+    (h : o.outputPath.length + 4 ≤ w.pathMax) : ∃ st, run o w plan fs = .val st :=
+  run_total o w plan fs h
+
 /-- the only directory change is to `dirname(outputPath)` -/
 theorem chdir_only_to_output_dir (o : Opts) (w : World) (plan : BitVec 32 → List (BitVec 32) × List (BitVec 32))
     (fs : FS) (st : St) (h : run o w plan fs = .val st) :
@@ -267,6 +275,10 @@ example : (match runC exOpts exWorld exFs with | .val st => st.events | _ => [])
      .openWrite true (nm "out.h") "w" true, .openWrite true (nm "out.c") "w" true,
      .openWrite true (nm "datasegments") "wb" true,
      .openWrite true (nm "s0000000000.c") "w" true, .openWrite true (nm "s0000000001.c") "w" true, .exit 0] := by
+  decide
+
+-- an output path that does not fit PATH_MAX is undefined behaviour of the C code, and the model says so
+example : (match runC exOpts { exWorld with pathMax := 9 } exFs with | .ub .bufferOverflow => true | _ => false) = true := by
   decide
 
 end W2c2Verif.Props.C20
